@@ -282,14 +282,14 @@ func (r *Run) Finish() {
 	fmt.Printf("%s tier=%s evaluations=%d distinct=%d violations=%d known=%d exhaustive=%v wall=%.1fs\n",
 		r.ID, r.Tier, r.Evaluations.Load(), r.distinct.Load(), unlisted, len(r.order)-unlisted, r.exhaustive, time.Since(r.start).Seconds())
 
-	if len(r.machinery) > 0 {
-		for _, m := range r.machinery {
-			fmt.Fprintf(os.Stderr, "MACHINERY-ERROR %s: %s\n", r.ID, m)
-		}
-		os.Exit(2)
+	for _, m := range r.machinery {
+		fmt.Fprintf(os.Stderr, "MACHINERY-ERROR %s: %s\n", r.ID, m)
 	}
 	if unlisted > 0 {
-		os.Exit(1)
+		os.Exit(1) // a violation that reproduced from its artefact stands, whatever else went wrong
+	}
+	if len(r.machinery) > 0 {
+		os.Exit(2)
 	}
 	os.Exit(0)
 }
